@@ -265,6 +265,26 @@ def entries():
 WRAPPERS = ("SubSamplingWrapper", "ParallelUtilityEstimationWrapper")
 
 
+def wrapper_entries():
+    """SubSamplingWrapper as a pool strategy of its own (C01 / C02): the sub-sample is the whole candidate set (in
+    random order), so a batch can always be filled; C20 relates it to the wrapped strategy, C14 runs the loop"""
+    from skactiveml.pool import SubSamplingWrapper
+
+    base = {e.name: e for e in entries()}
+    out = []
+    for inner_name in ("UncertaintySampling(entropy)", "RandomSampling"):
+        inner = base[inner_name]
+        for mc in (1.0, 50):
+            for excl in (False, True):
+                def make(seed, ml=np.nan, classes=(0, 1), inner=inner, mc=mc, excl=excl):
+                    return SubSamplingWrapper(inner.make(seed, ml, classes), max_candidates=mc,
+                                              exclude_non_subsample=excl, missing_label=ml, random_state=seed)
+                nm = "SubSamplingWrapper(%s,max_candidates=%s,exclude_non_subsample=%s)" % (inner_name, mc, excl)
+                out.append(Entry(nm, "SubSamplingWrapper", make, inner.model, selection=inner.selection,
+                                 rows=inner.rows, samplewise=False, arbitrary_idx=False, cost=1))
+    return out
+
+
 def check_complete():
     """every exported SingleAnnotatorPoolQueryStrategy subclass is registered
     (wrappers are handled by C20's driver)"""
